@@ -13,15 +13,56 @@ CLAUSES = {
 
 
 # ---------------------------------------------------------------------------- (a)
+_BD = {}
+
+
+def _betdaq_nearest(utils, x):
+    """acceptable answers on the Betdaq ladder (rebuilt exactly from BETDAQ_CUTOFFS, which are trusted)."""
+    import bisect
+
+    if "t" not in _BD:
+        _BD["t"] = refs.betdaq_ticks(utils.BETDAQ_CUTOFFS)
+    t = _BD["t"]
+    d = refs.dec(x)
+    if d <= t[0]:
+        return {t[0]}
+    if d >= t[-1]:
+        return {t[-1]}
+    i = bisect.bisect_left(t, d)
+    lo, hi = t[i - 1], t[i]
+    if abs((d - lo) - (hi - d)) <= Decimal("1e-9"):
+        return {lo, hi}
+    return {lo} if d - lo < hi - d else {hi}
+
+
+def _check_betdaq(utils, x, out):
+    try:
+        r = utils.get_nearest_price(x, utils.BETDAQ_CUTOFFS)
+    except Exception as e:
+        out.append(core.v("C17.a", ("get_nearest_price", "BETDAQ", "exc", type(e).__name__), "x=%r raised %r" % (x, e), {"x": x, "ladder": "BETDAQ"}))
+        return
+    ok = _betdaq_nearest(utils, x)
+    if refs.dec(r) not in ok:
+        out.append(core.v("C17.a", ("get_nearest_price", "BETDAQ", "-", "not-nearest"), "x=%r on the Betdaq ladder -> %r, nearest %s" % (x, r, sorted(map(float, ok))), {"x": x, "ladder": "BETDAQ", "got": r}))
+
+
 def _nearest_chunk(args):
-    lo, hi, denom = args
+    lo, hi, denom = args[:3]
+    betdaq_first = len(args) > 3 and args[3]
     from flumine import utils
 
     out, n, bands = [], 0, set()
     for k in range(lo, hi):
         x = k / denom
         n += 1
+        # the same number is rounded on both ladders, in either order (results must not depend on
+        # what was asked before)
+        if betdaq_first:
+            _check_betdaq(utils, x, out)
         _check_nearest(utils, x, out, bands)
+        if not betdaq_first:
+            _check_betdaq(utils, x, out)
+        n += 1
     return dict(violations=out[:20], n=n, bands=sorted(bands))
 
 
@@ -102,6 +143,19 @@ def _ticks_chunk(args):
                         {"price": p, "n": d, "got": r, "expected": exp / 100},
                     )
                 )
+    # the same on the Betdaq ladder (prices= argument), a slice of it per chunk
+    bd = [float(x) for x in refs.betdaq_ticks(utils.BETDAQ_CUTOFFS)]
+    for i in range(lo * len(bd) // 350, hi * len(bd) // 350):
+        for d in (-len(bd) - 3, -400, -7, -1, 0, 1, 2, 9, 50, 400, len(bd) + 3):
+            n += 1
+            try:
+                r = utils.price_ticks_away(bd[i], d, prices=utils.BETDAQ_PRICES_FLOAT)
+            except Exception as e:
+                out.append(core.v("C17.b", ("price_ticks_away", "BETDAQ", "-", "exc"), "(%r,%d) raised %r" % (bd[i], d, e), {"price": bd[i], "n": d, "ladder": "BETDAQ"}))
+                continue
+            exp = bd[min(max(i + d, 0), len(bd) - 1)]
+            if r != exp:
+                out.append(core.v("C17.b", ("price_ticks_away", "BETDAQ", "-", "distance"), "betdaq (%r,%d) -> %r expected %r" % (bd[i], d, r, exp), {"price": bd[i], "n": d, "ladder": "BETDAQ"}))
     return dict(violations=out[:20], n=n)
 
 
@@ -144,9 +198,10 @@ _W = {}
 
 
 def _val_world():
-    """One long-lived real framework/strategy/client per worker process (orders are fresh each time)."""
+    """One long-lived real framework/strategy/clients per worker process (orders are fresh each time)."""
     if _W:
         return _W
+    import betfairlightweight
     from flumine import FlumineSimulation, clients, BaseStrategy
     from flumine.controls.tradingcontrols import OrderValidation
     from betfairlightweight.resources.accountresources import AccountDetails
@@ -154,7 +209,8 @@ def _val_world():
     cl = clients.SimulatedClient(username="val")
     fw = FlumineSimulation(client=cl)
     st = BaseStrategy(market_filter={"markets": []}, name="val")
-    _W.update(fw=fw, cl=cl, st=st, ctl=OrderValidation(fw), AccountDetails=AccountDetails)
+    bf = clients.BetfairClient(betfairlightweight.APIClient("verif", "x", app_key="k", certs="/nonexistent"))
+    _W.update(fw=fw, cl=cl, bf=bf, st=st, ctl=OrderValidation(fw), AccountDetails=AccountDetails)
     return _W
 
 
@@ -175,7 +231,7 @@ def _mk_order(W, ot, side, price, size, liab, ladder, line):
     else:
         o_t = MarketOnCloseOrder(liab)
     o = tr.create_order(side, o_t)
-    o.update_client(W["cl"])
+    o.update_client(W["cur_client"])
     return o
 
 
@@ -206,8 +262,22 @@ def _val_chunk(cases):
     sig = set()
     for (cur, mbv, ot, side, price, size, liab, ladder, line) in cases:
         n += 1
-        W["cl"].account_details = W["AccountDetails"](currencyCode=cur, discountRate=0)
-        W["cl"].min_bet_validation = mbv
+        cur_k = cur
+        # currency "XXX:betfair" = live Betfair client; "NONE:betfair" = no account details yet,
+        # "ZZZ:betfair" = currency missing from the table (both documented to fall back to GBP)
+        kind = "sim"
+        if ":" in cur:
+            cur, kind = cur.split(":")
+        client = W["bf"] if kind == "betfair" else W["cl"]
+        W["cur_client"] = client
+        if cur == "NONE":
+            client.account_details = None
+            cur = "GBP"
+        else:
+            client.account_details = W["AccountDetails"](currencyCode=cur, discountRate=0)
+            if cur not in currency_parameters:
+                cur = "GBP"
+        client.min_bet_validation = mbv
         o = _mk_order(W, ot, side, price, size, liab, ladder, line)
         try:
             W["ctl"](o, OrderPackageType.PLACE)
@@ -233,7 +303,7 @@ def _val_chunk(cases):
                     "C17.c",
                     ("OrderValidation", ladder, ot, pred),
                     "%s %s %s price=%r size=%r liab=%r cur=%s mbv=%s: got %r expected %r" % (ot, side, ladder, price, size, liab, cur, mbv, got, exp),
-                    dict(currency=cur, min_bet_validation=mbv, ot=ot, side=side, price=price, size=size, liab=liab, ladder=ladder, line=line),
+                    dict(currency=cur_k, min_bet_validation=mbv, ot=ot, side=side, price=price, size=size, liab=liab, ladder=ladder, line=line),
                 )
             )
         elif got is False and o.status != OrderStatus.VIOLATION:
@@ -283,9 +353,11 @@ def _val_cases(tier):
             for mbv in (True, False):
                 cases.append(("GBP", mbv, "MOC", side, None, None, s, "CLASSIC", None))
                 cases.append(("GBP", mbv, "LOC", side, 2.0, None, s, "CLASSIC", None))
-    # (iii) every currency's thresholds
-    for cur in curs:
-        cp = currency_parameters[cur]
+    # (iii) every currency's thresholds, for the simulated and the live Betfair client
+    for cur_k in curs + [c + ":betfair" for c in curs] + ["NONE:betfair", "ZZZ:betfair"]:
+        cur = cur_k
+        base = cur_k.split(":")[0]
+        cp = currency_parameters[base if base in currency_parameters else "GBP"]
         mbs, mbp, mbl = cp["min_bet_size"], cp["min_bet_payout"], cp["min_bsp_liability"]
         szs = sorted({round(mbs + d, 2) for d in (-1, -0.5, -0.01, 0, 0.01, 0.5)} | {0.01, round(mbs / 2, 2), mbs * 2, 1, 2})
         for s in szs:
@@ -358,7 +430,7 @@ def run(tier):
     denom = 10000 if tier == "thorough" else 1000
     total = 1100 * denom + 1
     step = 20000 * (denom // 1000)
-    jobs = [(lo, min(lo + step, total), denom) for lo in range(0, total, step)]
+    jobs = [(lo, min(lo + step, total), denom, (lo // step) % 2 == 1) for lo in range(0, total, step)]
     n_eval = 0
     bands = set()
     for r in core.pmap(_nearest_chunk, jobs, chunk=1):
